@@ -6,6 +6,38 @@ From Mtbl Require Import gen.Ties.
 Import ListNotations.
 Local Open Scope string_scope.
 
+(* mtbl/merger.c: merger_iter_init *)
+Lemma tie_merger_iter_init : TIE_merger_iter_init =
+  [(0, "structmerger_iter*it=my_calloc(1,sizeof(*it))");
+   (0, "it->m=m");
+   (0, "it->h=heap_init(_mtbl_merger_compare,m)");
+   (0, "it->entries=entry_vec_init(source_vec_size(m->sources))");
+   (0, "it->iters=iter_vec_init(source_vec_size(m->sources))");
+   (0, "it->cur_key=ubuf_init(256)");
+   (0, "it->cur_val=ubuf_init(256)");
+   (0, "return(it)")].
+Proof. reflexivity. Qed.
+
+(* mtbl/sorter.c: mtbl_sorter_add *)
+Lemma tie_sorter_add : TIE_sorter_add =
+  [(0, "mtbl_resres=mtbl_res_success");
+   (0, "if(s->iterating)return(mtbl_res_failure)");
+   (0, "assert(len_key<=UINT_MAX)");
+   (0, "assert(len_val<=UINT_MAX)");
+   (0, "structentry*ent");
+   (0, "size_tentry_bytes");
+   (0, "entry_bytes=sizeof(*ent)+len_key+len_val");
+   (0, "ent=my_malloc(entry_bytes)");
+   (0, "ent->len_key=len_key");
+   (0, "ent->len_val=len_val");
+   (0, "memcpy(entry_key(ent),key,len_key)");
+   (0, "memcpy(entry_val(ent),val,len_val)");
+   (0, "entry_vec_append(s->vec,&ent,1)");
+   (0, "s->entry_bytes+=entry_bytes");
+   (0, "if(s->entry_bytes+entry_vec_bytes(s->vec)>=s->opt.max_memory)res=_mtbl_sorter_flush(s)");
+   (0, "return(res)")].
+Proof. reflexivity. Qed.
+
 (* mtbl/sorter.c: mtbl_sorter_iter *)
 Lemma tie_sorter_iter : TIE_sorter_iter =
   [(0, "structsorter_iter*it=my_calloc(1,sizeof(*it))");
@@ -26,6 +58,21 @@ Lemma tie_sorter_iter : TIE_sorter_iter =
    (0, "it->m_iter=mtbl_source_iter(mtbl_merger_source(it->m))");
    (0, "s->iterating=true");
    (0, "return(mtbl_iter_init(sorter_iter_seek,sorter_iter_next,sorter_iter_free,it))")].
+Proof. reflexivity. Qed.
+
+(* mtbl/sorter.c: mtbl_sorter_write *)
+Lemma tie_sorter_write : TIE_sorter_write =
+  [(0, "if(s->iterating)return(mtbl_res_failure)");
+   (0, "structmtbl_iter*it=mtbl_sorter_iter(s)");
+   (0, "constuint8_t*key,*val");
+   (0, "size_tlen_key,len_val");
+   (0, "mtbl_resres=mtbl_res_success");
+   (0, "if(it==NULL)return(mtbl_res_failure)");
+   (0, "while(mtbl_iter_next(it,&key,&len_key,&val,&len_val)==mtbl_res_success)");
+   (1, "res=mtbl_writer_add(w,key,len_key,val,len_val)");
+   (1, "if(res!=mtbl_res_success)break");
+   (0, "mtbl_iter_destroy(&it)");
+   (0, "return(res)")].
 Proof. reflexivity. Qed.
 
 (* mtbl/sorter.c: _mtbl_sorter_write_chunk *)
@@ -91,6 +138,21 @@ Lemma tie_sorter_write_chunk : TIE_sorter_write_chunk =
    (0, "return(r)")].
 Proof. reflexivity. Qed.
 
+(* mtbl/sorter.c: _mtbl_sorter_flush *)
+Lemma tie_sorter_flush : TIE_sorter_flush =
+  [(0, "mtbl_resres=mtbl_res_success");
+   (0, "structentry_batch*b");
+   (0, "assert(!s->iterating)");
+   (0, "b=_mtbl_sorter_get_entry_batch(s)");
+   (0, "if(s->pool!=NULL)");
+   (1, "threadpool_dispatch(s->pool,s->rhandler,false,_write_temp_file_wrapper,b)");
+   (0, "else");
+   (1, "structmtbl_reader*r=_mtbl_sorter_write_chunk(b)");
+   (1, "reader_vec_add(s->readers,r)");
+   (1, "if(r==NULL)res=mtbl_res_failure");
+   (0, "return(res)")].
+Proof. reflexivity. Qed.
+
 (* mtbl/sorter.c: mtbl_sorter_destroy *)
 Lemma tie_sorter_destroy : TIE_sorter_destroy =
   [(0, "if(*s)");
@@ -105,4 +167,459 @@ Lemma tie_sorter_destroy : TIE_sorter_destroy =
    (1, "reader_vec_destroy(&((*s)->readers))");
    (1, "free((*s)->opt.tmp_dname)");
    (1, "my_free(*s)")].
+Proof. reflexivity. Qed.
+
+(* mtbl/fileset.c: mtbl_fileset_reload *)
+Lemma tie_fileset_reload : TIE_fileset_reload =
+  [(0, "assert(f!=NULL)");
+   (0, "structtimespecnow");
+   (0, "if((f->fs_last.tv_sec!=f->shared_fs->fs_last.tv_sec)||(f->fs_last.tv_nsec!=f->shared_fs->fs_last.tv_nsec))");
+   (1, "fs_reinit_merger(f)");
+   (1, "f->fs_last=f->shared_fs->fs_last");
+   (0, "if(!f->shared_fs->reload_needed&&f->reload_interval==MTBL_FILESET_RELOAD_INTERVAL_NEVER)return");
+   (0, "if(f->shared_fs->n_iters>0)return");
+   (0, "#ifHAVE_CLOCK_GETTIME");
+   (0, "staticconstclockid_tclock=CLOCK_MONOTONIC");
+   (0, "#else");
+   (0, "staticconstintclock=-1");
+   (0, "#endif");
+   (0, "my_gettime(clock,&now)");
+   (0, "if(f->shared_fs->reload_needed||(now.tv_sec-f->shared_fs->fs_last.tv_sec>f->reload_interval))");
+   (1, "f->shared_fs->n_loaded=0");
+   (1, "f->shared_fs->n_unloaded=0");
+   (1, "assert(f->shared_fs->my_fs!=NULL)");
+   (1, "my_fileset_reload(f->shared_fs->my_fs)");
+   (1, "if(f->shared_fs->n_loaded>0||f->shared_fs->n_unloaded>0)fs_reinit_merger(f)");
+   (1, "f->shared_fs->fs_last=now");
+   (1, "f->fs_last=now");
+   (1, "f->shared_fs->reload_needed=false")].
+Proof. reflexivity. Qed.
+
+(* mtbl/fileset.c: mtbl_fileset_reload_now *)
+Lemma tie_fileset_reload_now : TIE_fileset_reload_now =
+  [(0, "assert(f!=NULL)");
+   (0, "structtimespecnow");
+   (0, "if((f->fs_last.tv_sec!=f->shared_fs->fs_last.tv_sec)||(f->fs_last.tv_nsec!=f->shared_fs->fs_last.tv_nsec))");
+   (1, "fs_reinit_merger(f)");
+   (1, "f->fs_last=f->shared_fs->fs_last");
+   (0, "if(f->shared_fs->n_iters>0)");
+   (1, "f->shared_fs->reload_needed=true");
+   (1, "return");
+   (0, "#ifHAVE_CLOCK_GETTIME");
+   (0, "staticconstclockid_tclock=CLOCK_MONOTONIC");
+   (0, "#else");
+   (0, "staticconstintclock=-1");
+   (0, "#endif");
+   (0, "my_gettime(clock,&now)");
+   (0, "f->shared_fs->n_loaded=0");
+   (0, "f->shared_fs->n_unloaded=0");
+   (0, "assert(f->shared_fs->my_fs!=NULL)");
+   (0, "my_fileset_reload(f->shared_fs->my_fs)");
+   (0, "if(f->shared_fs->n_loaded>0||f->shared_fs->n_unloaded>0)fs_reinit_merger(f)");
+   (0, "f->shared_fs->fs_last=now");
+   (0, "f->fs_last=now");
+   (0, "f->shared_fs->reload_needed=false")].
+Proof. reflexivity. Qed.
+
+(* mtbl/fileset.c: fileset_iter_init *)
+Lemma tie_fileset_iter_init : TIE_fileset_iter_init =
+  [(0, "structfileset_iter*it=my_calloc(1,sizeof(*it))");
+   (0, "f->shared_fs->n_iters++");
+   (0, "it->iter=mit");
+   (0, "it->fs=f");
+   (0, "returnmtbl_iter_init(fileset_iter_seek,fileset_iter_next,fileset_iter_free,it)")].
+Proof. reflexivity. Qed.
+
+(* mtbl/fileset.c: fileset_iter_free *)
+Lemma tie_fileset_iter_free : TIE_fileset_iter_free =
+  [(0, "structfileset_iter*it=(structfileset_iter*)v");
+   (0, "if(it)");
+   (1, "it->fs->shared_fs->n_iters--");
+   (1, "mtbl_iter_destroy(&it->iter)");
+   (1, "mtbl_fileset_reload(it->fs)");
+   (1, "free(it)")].
+Proof. reflexivity. Qed.
+
+(* mtbl/fileset.c: fs_reinit_merger *)
+Lemma tie_fileset_reinit_merger : TIE_fileset_reinit_merger =
+  [(0, "constchar*fname");
+   (0, "structmtbl_reader*reader");
+   (0, "size_ti=0");
+   (0, "if(f->merger)");
+   (1, "mtbl_merger_destroy(&f->merger)");
+   (1, "f->merger=mtbl_merger_init(f->mopt)");
+   (0, "assert(f->merger!=NULL)");
+   (0, "while(my_fileset_get(f->shared_fs->my_fs,i++,&fname,(void**)&reader))");
+   (1, "if(reader==NULL)");
+   (2, "continue");
+   (1, "if((f->fname_filter==NULL||f->fname_filter(fname,f->fname_filter_clos))&&(f->reader_filter==NULL||f->reader_filter(reader,f->reader_filter_clos)))");
+   (2, "mtbl_merger_add_source(f->merger,mtbl_reader_source(reader))")].
+Proof. reflexivity. Qed.
+
+(* libmy/my_fileset.c: my_fileset_reload *)
+Lemma tie_my_fileset_reload : TIE_my_fileset_reload =
+  [(0, "assert(fs!=NULL)");
+   (0, "structfileset_entry*ent,**entptr");
+   (0, "entry_vec*new_entries");
+   (0, "FILE*fp");
+   (0, "char*fname,*line=NULL");
+   (0, "size_tlen=0");
+   (0, "ubuf*u");
+   (0, "if(!setfile_updated(fs))return");
+   (0, "fp=fopen(fs->setfile,""r"")");
+   (0, "if(fp==NULL)return");
+   (0, "u=ubuf_init(64)");
+   (0, "new_entries=entry_vec_init(1)");
+   (0, "while(getline(&line,&len,fp)!=-1)");
+   (1, "ubuf_clip(u,0)");
+   (1, "if(line[0]!='/')");
+   (2, "ubuf_add_cstr(u,fs->setdir)");
+   (2, "ubuf_add(u,'/')");
+   (1, "ubuf_add_cstr(u,line)");
+   (1, "ubuf_rstrip(u,'\n')");
+   (1, "fname=ubuf_cstr(u)");
+   (1, "if(path_exists(fname))");
+   (2, "entptr=fetch_entry(fs->entries,fname)");
+   (2, "if(entptr==NULL)");
+   (3, "ent=my_calloc(1,sizeof(*ent))");
+   (3, "ent->fname=my_strdup(fname)");
+   (3, "if(fs->load)ent->ptr=fs->load(fs,fname)");
+   (3, "entry_vec_add(new_entries,ent)");
+   (2, "else");
+   (3, "ent=my_calloc(1,sizeof(*ent))");
+   (3, "ent->fname=my_strdup(fname)");
+   (3, "ent->ptr=(*entptr)->ptr");
+   (3, "(*entptr)->keep=true");
+   (3, "entry_vec_add(new_entries,ent)");
+   (0, "free(line)");
+   (0, "fclose(fp)");
+   (0, "qsort(entry_vec_data(new_entries),entry_vec_size(new_entries),sizeof(void*),cmp_fileset_entry)");
+   (0, "for(size_ti=0;i<entry_vec_size(fs->entries);i++)");
+   (1, "ent=entry_vec_value(fs->entries,i)");
+   (1, "assert(ent!=NULL)");
+   (1, "if(ent->keep==false&&fs->unload)fs->unload(fs,ent->fname,ent->ptr)");
+   (1, "free(ent->fname)");
+   (1, "free(ent)");
+   (0, "entry_vec_destroy(&fs->entries)");
+   (0, "fs->entries=new_entries");
+   (0, "ubuf_destroy(&u)")].
+Proof. reflexivity. Qed.
+
+(* mtbl/reader.c: mtbl_reader_init_fd *)
+Lemma tie_reader_init_fd : TIE_reader_init_fd =
+  [(0, "structmtbl_reader*r");
+   (0, "structstatss");
+   (0, "size_tmetadata_offset");
+   (0, "size_tindex_len,index_len_len");
+   (0, "uint8_t*index_data");
+   (0, "intret=fstat(fd,&ss)");
+   (0, "assert(ret==0)");
+   (0, "if(ss.st_size<MTBL_METADATA_SIZE)return(NULL)");
+   (0, "r=my_calloc(1,sizeof(*r))");
+   (0, "if(opt!=NULL)memcpy(&r->opt,opt,sizeof(*opt))");
+   (0, "r->len_data=ss.st_size");
+   (0, "r->data=mmap(NULL,r->len_data,PROT_READ,MAP_PRIVATE,fd,0)");
+   (0, "if(r->data==MAP_FAILED)");
+   (1, "free(r)");
+   (1, "return(NULL)");
+   (0, "metadata_offset=r->len_data-MTBL_METADATA_SIZE");
+   (0, "if(!metadata_read(r->data+metadata_offset,&r->m))");
+   (1, "mtbl_reader_destroy(&r)");
+   (1, "return(NULL)");
+   (0, "uint64_tend,min_block_length=13");
+   (0, "if(r->m.file_version==MTBL_FORMAT_V1)min_block_length=16");
+   (0, "end=r->m.index_block_offset+MTBL_METADATA_SIZE+min_block_length");
+   (0, "if((end>r->len_data)||(end<r->m.index_block_offset))");
+   (1, "mtbl_reader_destroy(&r)");
+   (1, "return(NULL)");
+   (0, "reader_init_madvise(r)");
+   (0, "if(r->m.file_version==MTBL_FORMAT_V1)");
+   (1, "index_len_len=sizeof(uint32_t)");
+   (1, "index_len=mtbl_fixed_decode32(r->data+r->m.index_block_offset+0)");
+   (0, "else");
+   (1, "uint64_ttmp");
+   (1, "index_len_len=mtbl_varint_decode64(r->data+r->m.index_block_offset+0,&tmp)");
+   (1, "index_len=tmp");
+   (1, "if((uint64_t)index_len!=tmp)");
+   (2, "mtbl_reader_destroy(&r)");
+   (2, "returnNULL");
+   (0, "uint64_tindex_avail=metadata_offset-r->m.index_block_offset");
+   (0, "uint64_tindex_header=index_len_len+sizeof(uint32_t)");
+   (0, "if(index_header>index_avail||index_len>index_avail-index_header)");
+   (1, "mtbl_reader_destroy(&r)");
+   (1, "return(NULL)");
+   (0, "index_data=r->data+r->m.index_block_offset+index_len_len+sizeof(uint32_t)");
+   (0, "if(r->opt.verify_checksums)");
+   (1, "uint32_tindex_crc,calc_crc");
+   (1, "index_crc=mtbl_fixed_decode32(r->data+r->m.index_block_offset+index_len_len)");
+   (1, "calc_crc=mtbl_crc32c(index_data,index_len)");
+   (1, "assert(index_crc==calc_crc)");
+   (0, "r->index=block_init(index_data,index_len,false)");
+   (0, "r->source=mtbl_source_init(reader_iter,reader_get,reader_get_prefix,reader_get_range,NULL,r)");
+   (0, "return(r)")].
+Proof. reflexivity. Qed.
+
+(* mtbl/writer.c: _mtbl_writer_finish *)
+Lemma tie_writer_finish : TIE_writer_finish =
+  [(0, "structdata_blockindex");
+   (0, "uint8_ttbuf[MTBL_METADATA_SIZE]");
+   (0, "size_tbytes_written");
+   (0, "_mtbl_writer_flush(w)");
+   (0, "result_handler_destroy(&w->rhandler)");
+   (0, "assert(!w->closed)");
+   (0, "w->closed=true");
+   (0, "block_builder_finish(w->index,&index.data,&index.len_data)");
+   (0, "index.crc=htole32(mtbl_crc32c(index.data,index.len_data))");
+   (0, "bytes_written=_mtbl_writer_write_block(w->fd,&index)");
+   (0, "w->m.index_block_offset=w->pending_offset");
+   (0, "w->m.bytes_index_block=bytes_written");
+   (0, "w->last_offset=w->pending_offset");
+   (0, "w->pending_offset+=bytes_written");
+   (0, "metadata_write(&w->m,tbuf)");
+   (0, "_write_all(w->fd,tbuf,sizeof(tbuf))");
+   (0, "block_builder_reset(w->index)");
+   (0, "free(index.data)")].
+Proof. reflexivity. Qed.
+
+(* mtbl/writer.c: mtbl_writer_init *)
+Lemma tie_writer_init : TIE_writer_init =
+  [(0, "structmtbl_writer*w");
+   (0, "intfd");
+   (0, "fd=open(fname,O_WRONLY|O_CREAT|O_TRUNC|O_EXCL,0644)");
+   (0, "if(fd<0)return(NULL)");
+   (0, "w=mtbl_writer_init_fd(fd,opt)");
+   (0, "close(fd)");
+   (0, "return(w)")].
+Proof. reflexivity. Qed.
+
+(* mtbl/writer.c: mtbl_writer_init_fd *)
+Lemma tie_writer_init_fd : TIE_writer_init_fd =
+  [(0, "structmtbl_writer*w");
+   (0, "intfd");
+   (0, "fd=dup(orig_fd)");
+   (0, "assert(fd>=0)");
+   (0, "w=my_calloc(1,sizeof(*w))");
+   (0, "if(opt==NULL)");
+   (1, "w->opt.compression_type=DEFAULT_COMPRESSION_TYPE");
+   (1, "w->opt.compression_level=DEFAULT_COMPRESSION_LEVEL");
+   (1, "w->opt.block_size=DEFAULT_BLOCK_SIZE");
+   (1, "w->opt.block_restart_interval=DEFAULT_BLOCK_RESTART_INTERVAL");
+   (1, "w->opt.pool=NULL");
+   (0, "else");
+   (1, "memcpy(&w->opt,opt,sizeof(*opt))");
+   (0, "w->fd=fd");
+   (0, "w->last_offset=lseek(fd,0,SEEK_CUR)");
+   (0, "w->pending_offset=w->last_offset");
+   (0, "w->last_key=ubuf_init(256)");
+   (0, "w->m.file_version=MTBL_FORMAT_V2");
+   (0, "w->m.compression_algorithm=w->opt.compression_type");
+   (0, "w->m.data_block_size=w->opt.block_size");
+   (0, "w->data=block_builder_init(w->opt.block_restart_interval)");
+   (0, "w->index=block_builder_init(w->opt.block_restart_interval)");
+   (0, "if(w->opt.pool!=NULL)");
+   (1, "w->pool=w->opt.pool->pool");
+   (1, "w->rhandler=result_handler_init(_write_data_block_wrapper,w)");
+   (0, "return(w)")].
+Proof. reflexivity. Qed.
+
+(* mtbl/threadpool.c: result_handler_destroy *)
+Lemma tie_tp_rh_destroy : TIE_tp_rh_destroy =
+  [(0, "structresult_handler*rh=*prh");
+   (0, "if(rh==NULL)return");
+   (0, "resultq_finish(rh->rq)");
+   (0, "pthread_join(rh->thread,NULL)");
+   (0, "free(rh)");
+   (0, "*prh=NULL")].
+Proof. reflexivity. Qed.
+
+(* mtbl/writer.c: mtbl_writer_destroy *)
+Lemma tie_writer_destroy : TIE_writer_destroy =
+  [(0, "if(*w)");
+   (1, "if(!(*w)->closed)");
+   (2, "_mtbl_writer_finish(*w)");
+   (2, "close((*w)->fd)");
+   (1, "block_builder_destroy(&((*w)->data))");
+   (1, "block_builder_destroy(&((*w)->index))");
+   (1, "ubuf_destroy(&(*w)->last_key)");
+   (1, "my_free(*w)")].
+Proof. reflexivity. Qed.
+
+(* mtbl/reader.c: mtbl_reader_init *)
+Lemma tie_reader_init : TIE_reader_init =
+  [(0, "structmtbl_reader*r");
+   (0, "intfd");
+   (0, "fd=open(fname,O_RDONLY)");
+   (0, "if(fd<0)return(NULL)");
+   (0, "r=mtbl_reader_init_fd(fd,opt)");
+   (0, "close(fd)");
+   (0, "return(r)")].
+Proof. reflexivity. Qed.
+
+(* mtbl/reader.c: mtbl_reader_destroy *)
+Lemma tie_reader_destroy : TIE_reader_destroy =
+  [(0, "if(*r!=NULL)");
+   (1, "block_destroy(&(*r)->index)");
+   (1, "munmap((*r)->data,(*r)->len_data)");
+   (1, "mtbl_source_destroy(&(*r)->source)");
+   (1, "free(*r)");
+   (1, "*r=NULL")].
+Proof. reflexivity. Qed.
+
+(* mtbl/reader.c: reader_iter_free *)
+Lemma tie_reader_iter_free : TIE_reader_iter_free =
+  [(0, "structreader_iter*it=(structreader_iter*)v");
+   (0, "if(it)");
+   (1, "ubuf_destroy(&it->k)");
+   (1, "block_destroy(&it->b)");
+   (1, "block_iter_destroy(&it->bi)");
+   (1, "block_iter_destroy(&it->index_iter)");
+   (1, "free(it)")].
+Proof. reflexivity. Qed.
+
+(* mtbl/merger.c: mtbl_merger_destroy *)
+Lemma tie_merger_destroy : TIE_merger_destroy =
+  [(0, "if(*m)");
+   (1, "source_vec_destroy(&(*m)->sources)");
+   (1, "mtbl_source_destroy(&(*m)->source)");
+   (1, "free(*m)");
+   (1, "*m=NULL")].
+Proof. reflexivity. Qed.
+
+(* mtbl/merger.c: merger_iter_free *)
+Lemma tie_merger_iter_free : TIE_merger_iter_free =
+  [(0, "structmerger_iter*it=(structmerger_iter*)v");
+   (0, "if(it!=NULL)");
+   (1, "heap_destroy(&it->h)");
+   (1, "for(size_ti=0;i<entry_vec_size(it->entries);i++)");
+   (2, "structentry*ent=entry_vec_value(it->entries,i)");
+   (2, "free(ent)");
+   (1, "entry_vec_destroy(&it->entries)");
+   (1, "for(size_ti=0;i<iter_vec_size(it->iters);i++)");
+   (2, "structmtbl_iter*iter=iter_vec_value(it->iters,i)");
+   (2, "mtbl_iter_destroy(&iter)");
+   (1, "iter_vec_destroy(&it->iters)");
+   (1, "ubuf_destroy(&it->cur_key)");
+   (1, "ubuf_destroy(&it->cur_val)");
+   (1, "free(it)")].
+Proof. reflexivity. Qed.
+
+(* mtbl/sorter.c: mtbl_sorter_init *)
+Lemma tie_sorter_init : TIE_sorter_init =
+  [(0, "structmtbl_sorter*s");
+   (0, "s=my_calloc(1,sizeof(*s))");
+   (0, "if(opt!=NULL)");
+   (1, "memcpy(&s->opt,opt,sizeof(*opt))");
+   (1, "s->opt.tmp_dname=strdup(opt->tmp_dname)");
+   (0, "s->vec=entry_vec_init(INITIAL_SORTER_VEC_SIZE)");
+   (0, "s->readers=reader_vec_init(1)");
+   (0, "if(s->opt.pool!=NULL)");
+   (1, "s->pool=s->opt.pool->pool");
+   (1, "s->rhandler=result_handler_init(_collect_readers_cb,s)");
+   (0, "return(s)")].
+Proof. reflexivity. Qed.
+
+(* mtbl/sorter.c: sorter_iter_free *)
+Lemma tie_sorter_iter_free : TIE_sorter_iter_free =
+  [(0, "structsorter_iter*it=(structsorter_iter*)v");
+   (0, "if(it)");
+   (1, "mtbl_iter_destroy(&it->m_iter)");
+   (1, "mtbl_merger_destroy(&it->m)");
+   (1, "free(it)")].
+Proof. reflexivity. Qed.
+
+(* mtbl/fileset.c: mtbl_fileset_init *)
+Lemma tie_fileset_init : TIE_fileset_init =
+  [(0, "structmtbl_fileset*f=my_calloc(1,sizeof(*f))");
+   (0, "f->shared_fs=my_calloc(1,sizeof(*(f->shared_fs)))");
+   (0, "f->shared_fs->n_fs=1");
+   (0, "f->shared_fs->reload_needed=true");
+   (0, "f->shared_fs->my_fs=my_fileset_init(fname,fs_load,fs_unload,f->shared_fs)");
+   (0, "assert(f->shared_fs->my_fs!=NULL)");
+   (0, "mtbl_fileset_set_options(f,opt)");
+   (0, "return(f)")].
+Proof. reflexivity. Qed.
+
+(* mtbl/fileset.c: mtbl_fileset_dup *)
+Lemma tie_fileset_dup : TIE_fileset_dup =
+  [(0, "structmtbl_fileset*f=my_calloc(1,sizeof(*f))");
+   (0, "f->shared_fs=orig->shared_fs");
+   (0, "f->shared_fs->n_fs++");
+   (0, "mtbl_fileset_set_options(f,opt)");
+   (0, "return(f)")].
+Proof. reflexivity. Qed.
+
+(* mtbl/fileset.c: mtbl_fileset_destroy *)
+Lemma tie_fileset_destroy : TIE_fileset_destroy =
+  [(0, "if(*f)");
+   (1, "if(--((*f)->shared_fs->n_fs)<=0)");
+   (2, "my_fileset_destroy(&(*f)->shared_fs->my_fs)");
+   (2, "free((*f)->shared_fs)");
+   (1, "mtbl_merger_destroy(&(*f)->merger)");
+   (1, "mtbl_merger_options_destroy(&(*f)->mopt)");
+   (1, "mtbl_source_destroy(&(*f)->source)");
+   (1, "free(*f)");
+   (1, "*f=NULL")].
+Proof. reflexivity. Qed.
+
+(* libmy/my_fileset.c: my_fileset_destroy *)
+Lemma tie_my_fileset_destroy : TIE_my_fileset_destroy =
+  [(0, "if(*fs!=NULL)");
+   (1, "for(size_ti=0;i<entry_vec_size((*fs)->entries);i++)");
+   (2, "structfileset_entry*ent=entry_vec_value((*fs)->entries,i)");
+   (2, "if((*fs)->unload)(*fs)->unload(*fs,ent->fname,ent->ptr)");
+   (2, "free(ent->fname)");
+   (2, "free(ent)");
+   (1, "entry_vec_destroy(&(*fs)->entries)");
+   (1, "free((*fs)->setdir)");
+   (1, "free((*fs)->setfile)");
+   (1, "free(*fs)");
+   (1, "*fs=NULL")].
+Proof. reflexivity. Qed.
+
+(* mtbl/iter.c: mtbl_iter_destroy *)
+Lemma tie_iter_destroy : TIE_iter_destroy =
+  [(0, "if(*it)");
+   (1, "if((*it)->iter_free!=NULL)(*it)->iter_free((*it)->clos)");
+   (1, "free(*it)");
+   (1, "*it=NULL")].
+Proof. reflexivity. Qed.
+
+(* mtbl/source.c: mtbl_source_write *)
+Lemma tie_source_write : TIE_source_write =
+  [(0, "constuint8_t*key,*val");
+   (0, "size_tlen_key,len_val");
+   (0, "structmtbl_iter*it=mtbl_source_iter(s)");
+   (0, "mtbl_resres=mtbl_res_success");
+   (0, "if(it==NULL)return(mtbl_res_failure)");
+   (0, "while(mtbl_iter_next(it,&key,&len_key,&val,&len_val)==mtbl_res_success)");
+   (1, "res=mtbl_writer_add(w,key,len_key,val,len_val)");
+   (1, "if(res!=mtbl_res_success)break");
+   (0, "mtbl_iter_destroy(&it)");
+   (0, "return(res)")].
+Proof. reflexivity. Qed.
+
+(* mtbl/threadpool.c: result_handler_init *)
+Lemma tie_tp_rh_init : TIE_tp_rh_init =
+  [(0, "structresult_handler*rh=calloc(1,sizeof(*rh))");
+   (0, "rh->rq=resultq_init()");
+   (0, "rh->cb=cb");
+   (0, "rh->cbdata=cbdata");
+   (0, "pthread_create(&rh->thread,NULL,result_worker,rh)");
+   (0, "returnrh")].
+Proof. reflexivity. Qed.
+
+(* mtbl/threadpool.c: mtbl_threadpool_init *)
+Lemma tie_tp_pool_init : TIE_tp_pool_init =
+  [(0, "structmtbl_threadpool*pool=calloc(1,sizeof(*pool))");
+   (0, "if(thread_count>0)pool->pool=threadpool_init(thread_count)");
+   (0, "returnpool")].
+Proof. reflexivity. Qed.
+
+(* mtbl/threadpool.c: mtbl_threadpool_destroy *)
+Lemma tie_tp_pool_destroy : TIE_tp_pool_destroy =
+  [(0, "structmtbl_threadpool*pool=*poolp");
+   (0, "if(pool==NULL)return");
+   (0, "threadpool_destroy(&pool->pool)");
+   (0, "free(pool)");
+   (0, "*poolp=NULL")].
 Proof. reflexivity. Qed.
